@@ -516,7 +516,31 @@ def F(name, fn, strat, q=600, t=8000):
                  shards={"quick": 1, "thorough": 4}, min_nontrivial={"quick": q // 12, "thorough": t // 12}, case_timeout=60)
 
 
+def _large_specs(tier):
+    """datasets beyond 2**16 samples (chunked counting, 16-bit indices, ... have their boundaries there): a handful of fixed layouts"""
+    sizes = [(2 ** 16 + 37, [0.6, 0.3, 0.1])] + ([(2 ** 16 + 1, [0.5, 0.5]), (2 ** 17 + 5, [0.7, 0.2, 0.05, 0.05])] if tier == "thorough" else [])
+    for n, fr in sizes:
+        cl = []
+        for c, f_ in enumerate(fr):
+            cl += [c] * int(n * f_)
+        cl += [0] * (n - len(cl))
+        order = np.random.default_rng(n).permutation(n)
+        cl = [cl[int(i)] for i in order]
+        base = {"classes": cl, "C": len(fr), "bulk": "numpy", "lk": 0, "under": None, "native_items": False, "prior": False, "binary_shape": False}
+        yield dict(base, what="classwise", form="percent", p=0.25, q=0.75)
+        yield dict(base, what="oversampling", mode="exact")
+        yield dict(base, what="oversampling", mode="multiply")
+
+
+def check_large(spec):
+    if spec["what"] == "classwise":
+        return check_classwise_subset(spec)
+    return check_oversampling(spec)
+
+
 FACETS = [
+    Facet("large-datasets", guarded("large-datasets", check_large), enumerate=_large_specs, exhaustive=True, shards={"quick": 3, "thorough": 9},
+          min_nontrivial={"quick": 0, "thorough": 0}, case_timeout=600),
     F("class-filter", check_class_filter, S_CLASS_FILTER),
     F("percent-filter", check_percent_filter, S_PERCENT),
     F("subset-wrapper", check_subset_wrapper, S_SUBSET, q=900, t=12000),
